@@ -202,7 +202,7 @@ impl World {
             .sc
             .faults
             .iter()
-            .find(|f| (f.at_send == k || (f.from_send > 0 && k >= f.from_send)) && f.op == op)
+            .find(|f| (f.at_send == k || (f.from_send > 0 && k >= f.from_send && (f.until_send <= 0 || k < f.until_send))) && f.op == op)
             .map(|f| f.kind.clone());
         if let Some(kind) = &hit {
             self.counters.faults_fired += 1;
